@@ -30,6 +30,8 @@ impl Chunk {
         use std::sync::atomic::Ordering;
         NUM_LIVE_CHUNKS.fetch_add(1, Ordering::Relaxed);
         NUM_LIVE_BYTES.fetch_add(storage.len(), Ordering::Relaxed);
+        #[cfg(woodpile_verif)]
+        crate::verif::chunk_created(storage.as_ptr() as usize, storage.len());
 
         Chunk {
             storage: NonNull::from(Box::leak(storage)),
@@ -55,6 +57,8 @@ impl Drop for Chunk {
         #[allow(unused_mut)] // needed for test-only memset.
         let mut storage = unsafe { Box::from_raw(self.storage.as_mut()) };
         let capacity = storage.len();
+        #[cfg(woodpile_verif)]
+        crate::verif::chunk_dropped(storage.as_ptr() as usize, capacity);
 
         #[cfg(debug_assertions)]
         for i in 0..capacity {
@@ -129,6 +133,16 @@ impl Anchor {
         let can_take = self.count.min(decrement);
         self.count -= can_take;
         decrement - can_take
+    }
+
+    /// Verification hook: base address of the chunk this anchor keeps alive (0 if none).
+    #[cfg(woodpile_verif)]
+    #[must_use]
+    pub fn verif_chunk_base(&self) -> usize {
+        match self.chunk.as_ref() {
+            Some(chunk) => chunk.storage.as_ptr() as *const u8 as usize,
+            None => 0,
+        }
     }
 
     /// Determins whether this [`Anchor`] holds on to the same
